@@ -5,6 +5,8 @@
 extern "C" float __verif_nondet_float(float lo, float hi);
 extern "C" void __verif_env_input_f(double v);
 extern "C" int __verif_choice(int n);
+extern "C" double __verif_uf_mix(double h, double v);     // digest of the solver inputs (0 unless floats are uninterpreted functions)
+extern "C" float __verif_cg_result(double digest, int i);   // i-th coordinate of the result: a function of the digest
 // what the repository last handed to the solver as stopping criteria (read back by the C17 harness)
 inline float __verif_cg_tolerance = -1.0f; inline int __verif_cg_max_iterations = -1;
 namespace Eigen {
@@ -21,18 +23,20 @@ template <class S, int R, int C> struct Matrix {
 };
 template <class M> struct Map;
 template <class S, int R, int C> struct Map<Matrix<S, R, C> > : Matrix<S, R, C> { Map(S* p, long n) { this->n_ = (int)n; this->ext_ = p; } };
-template <class S> struct SparseMatrix { int r_, c_; SparseMatrix(int r, int c) : r_(r), c_(c) {} template <class It> void setFromTriplets(It b, It e) { for (; b != e; ++b) __verif_env_input_f((double)b->value()); } };
+template <class S> struct SparseMatrix { int r_, c_; double h_; SparseMatrix(int r, int c) : r_(r), c_(c), h_(0.0) {} template <class It> void setFromTriplets(It b, It e) { for (; b != e; ++b) { __verif_env_input_f((double)b->value()); h_ = __verif_uf_mix(__verif_uf_mix(__verif_uf_mix(h_, (double)b->row()), (double)b->col()), (double)b->value()); } } };
 template <class M, int UpLo> struct ConjugateGradient {
-  int n_;
-  ConjugateGradient() : n_(0) {}
-  void compute(const M& m) { n_ = m.r_; }
-  void setTolerance(float t) { __verif_cg_tolerance = t; }
-  void setMaxIterations(int n) { __verif_cg_max_iterations = n; }
-  template <class A, class B> Matrix<float, -1, 1> solveWithGuess(const A& rhs, const B&) {
+  int n_; double h_;
+  ConjugateGradient() : n_(0), h_(0.0) {}
+  void compute(const M& m) { n_ = m.r_; h_ = m.h_; }
+  void setTolerance(float t) { __verif_cg_tolerance = t; h_ = __verif_uf_mix(h_, (double)t); }
+  void setMaxIterations(int n) { __verif_cg_max_iterations = n; h_ = __verif_uf_mix(h_, (double)n); }
+  template <class A, class B> Matrix<float, -1, 1> solveWithGuess(const A& rhs, const B& guess) {
     Matrix<float, -1, 1> r; r.n_ = rhs.n_;
-    for (int i = 0; i < rhs.n_; ++i) __verif_env_input_f((double)(rhs.ext_ ? rhs.ext_[i] : rhs.d_[i]));
+    double h = h_;
+    for (int i = 0; i < rhs.n_; ++i) { double v = (double)(rhs.ext_ ? rhs.ext_[i] : rhs.d_[i]); __verif_env_input_f(v); h = __verif_uf_mix(h, v); }
+    for (int i = 0; i < guess.n_; ++i) h = __verif_uf_mix(h, (double)(guess.ext_ ? guess.ext_[i] : guess.d_[i]));
     VCAPREQ(r.n_ <= VCAP);
-    for (int i = 0; i < r.n_; ++i) r.d_[i] = __verif_nondet_float(-3.0e38f, 3.0e38f);
+    for (int i = 0; i < r.n_; ++i) r.d_[i] = __verif_cg_result(h, i);
     return r;
   }
 };
